@@ -501,6 +501,10 @@ func (d *cfgDynamic) toConfig(opts *options) (cfg *Config, err error) {
 func (d *cfgDynamic) withValue(err *error, opts *options, fn func(value)) {
 	var v value
 	if v, *err = d.getValue(opts); *err == nil {
+		// the value is used in a scope of its own: references it resolves on
+		// the way are forgotten afterwards, while the one that led to v stays
+		// active in the enclosing scope
+		defer opts.scopeActiveFields()()
 		fn(v)
 	}
 }
@@ -525,7 +529,7 @@ func (r *refDynValue) getValue(
 	opts *options,
 ) (value, error) {
 	ref := (*reference)(r)
-	v, err := ref.resolveRef(p.ctx.getParent(), opts)
+	v, err := ref.resolveRef(p.ctx.getParent(), opts, p)
 	// If not found or we have a cyclic reference we try the environment resolvers
 	if v != nil || criticalResolveError(err) {
 		return v, err
